@@ -135,7 +135,8 @@ def build_coq(clean=False):
             sh("make clean >/dev/null 2>&1; find . -name '*.vo' -o -name '*.glob' -o -name '*.vok' -o -name '*.vos' | xargs rm -f",
                cwd=COQ, check=False)
         t0 = time.time()
-        p = sh("timeout 3000 make -k -j16", cwd=COQ, check=False)
+        # per-file limits: a diverging proof step must not take the machine (or the shared lock) with it
+        p = sh("ulimit -v 16000000; timeout 3000 make -k -j16 COQC='timeout 1200 coqc'", cwd=COQ, check=False)
         # A file that does not compile is only fatal for the properties that depend on it: compile_prop()
         # fails for exactly those (their .vo prerequisites are missing).  The log is kept for the evidence.
         open(os.path.join(BUILD, "coq_build.log"), "w").write(p.stdout or "")
@@ -154,7 +155,8 @@ def compile_prop(pid):
     Returns dict(theorems=[...], axioms=set(...), closed=int, ok=bool, log=str)."""
     src = os.path.join(PROPS, pid + ".v")
     with Lock("coq"):
-        p = sh(["timeout", "900", "coqc"] + coq_flags() + [os.path.relpath(src, COQ)], cwd=COQ, check=False)
+        p = sh("ulimit -v 16000000; exec timeout 900 coqc %s %s" % (" ".join(coq_flags()), os.path.relpath(src, COQ)),
+               cwd=COQ, check=False)
     out = p.stdout or ""
     txt = open(src).read()
     txt_nc = re.sub(r"\(\*.*?\*\)", "", txt, flags=re.S)
